@@ -24,7 +24,7 @@ def failstop_oracle(ctx, r, scen):
     if r["verdict"] in ("hang", "deadlock", "steps"):
         ctx.violation("pipeline-hang-after-failure", f"a create_checkpoint caller never returns after the failed call: {r['verdict_info']}", scen)
         return
-    failed_k = next((k for k, e in enumerate(evs) if e["ev"] == "ApiRet" and not e["ok"]), None)
+    failed_k = next((k for k, e in enumerate(evs) if (e["ev"] == "ApiRet" and not e["ok"]) or e["ev"] == "PageFail"), None)
     if failed_k is None:
         return
     later_calls = [e for e in evs[failed_k + 1:] if e["ev"] == "ApiCall"]
@@ -86,6 +86,10 @@ def run_part(ctx):
         for fail_at in (1, 2, 3):
             plan = dict(base, fail_at=fail_at)
             for r, _st in explore(lambda s, p=plan: run_batcher(p, s), max_preempt=2, max_runs=budget):
+                record(r, {"kind": "batcher", "plan": plan, "choices": r["choices"], "mode": "dfs"})
+        for page_fail_at in (1, 2):
+            plan = dict(base, fail_at=None, page_fail_at=page_fail_at)
+            for r, _st in explore(lambda s, p=plan: run_batcher(p, s), max_preempt=2, max_runs=budget // 2):
                 record(r, {"kind": "batcher", "plan": plan, "choices": r["choices"], "mode": "dfs"})
     # (b) random plans, always with a failure
     for k in range(100 if ctx.quick else 3000):
